@@ -264,7 +264,13 @@ def families(pid, tier):
                                                              ('access', 'a/b'), ('hclear', 'a'), ('static',)]
         n += 1
     if pid == 'C17':
-        ops = [o for o in ops if o[0] in ('set', 'static')]
+        ops = [('set', k, v) for k in ('a', 'a/b', 'b-1', '__p') for v in (('h', 0), ('h', 1), ('m', 1))]
+        ops += [('set', 'a', ('layer',)), ('set', 'a/b', ('layer',))]
+        # every history ends with the comparison of the snapshot with the map
+        for k in range(1, n + 2):
+            for combo in itertools.product(ops, repeat=k):
+                yield list(combo) + [('static',)]
+        return
     for k in range(1, n + 1):
         for combo in itertools.product(ops, repeat=k):
             yield list(combo)
